@@ -150,14 +150,34 @@ def gen_contain(rng):
                "../proj-private/secret.etk", "@T@/proj-private/secret.etk", "sib_link.etk", "lib/../../proj-private/secret.etk"]
     hex_targets = ["lib/ok.hex", "../outside/secret.hex", "dirlink_out/secret.hex", "@T@/outside/secret.hex", "dirlink_in/ok.hex",
                    "../proj2/secret.hex", "@T@/proj2/secret.hex"]
-    lines = []
-    for _ in range(rng.randrange(1, 4)):
-        r = rng.random()
-        if r < 0.4: lines.append(f'%import("{rng.choice(targets)}")')
-        elif r < 0.8: lines.append(f'%include("{rng.choice(targets)}")')
-        else: lines.append(f'%include_hex("{rng.choice(hex_targets)}")')
-        if rng.random() < 0.3:
-            lines.append("gas")
+    # nested sources with directives of their own: paths in them are relative to THEIR directory, and a plain
+    # descending path can still leave the root through a symlinked file or directory next to the nested file
+    entries += [("l", "proj/lib/vendor", "../../outside"), ("l", "proj/lib/deep/out.etk", "../../../outside/secret.etk"),
+                ("l", "proj/lib/deep/vend", "../../../proj-private")]
+    nested_targets = {
+        "lib": ["ok.etk", "link_in.etk", "up.etk", "deep/x.etk", "../lib/ok.etk", "vendor/secret.etk", "../link_out.etk",
+                "../../outside/secret.etk", "@T@/outside/secret.etk", "missing.etk", "../sib_link.etk", "deep/out.etk",
+                "deep/nest1.etk", "deep/vend/secret.etk"],
+        "lib/deep": ["x.etk", "out.etk", "../up.etk", "../ok.etk", "vend/secret.etk", "../vendor/secret.etk", "../link_in.etk"],
+    }
+    nested_hex = {"lib": ["ok.hex", "vendor/secret.hex", "../../outside/secret.hex"], "lib/deep": ["../ok.hex", "../vendor/secret.hex"]}
+
+    def directives(tg, hx, n):
+        out = []
+        for _ in range(n):
+            r = rng.random()
+            if r < 0.4: out.append(f'%import("{rng.choice(tg)}")')
+            elif r < 0.8: out.append(f'%include("{rng.choice(tg)}")')
+            else: out.append(f'%include_hex("{rng.choice(hx)}")')
+            if rng.random() < 0.3:
+                out.append("gas")
+        return out
+    nested = []
+    for d, name in (("lib/deep", "nest1.etk"), ("lib", "nest0.etk")):
+        body = directives(nested_targets[d], nested_hex[d], rng.randrange(1, 3))
+        entries.append(("f", f"proj/{d}/{name}", ("\n".join(body) + "\n").encode()))
+        nested.append(f"{d}/{name}")
+    lines = directives(targets + nested * 6, hex_targets, rng.randrange(1, 4))
     top = rng.choice(["proj/main.etk", "proj/main.etk", "realroot_link/main.etk"])
     entries.append(("f", "proj/main.etk", ("\n".join(lines) + "\n").encode()))
     return top, entries, lines
@@ -202,15 +222,30 @@ def outside_targets(case):
                     os.symlink(tgt, p)
         top_abs = os.path.join(base, top)
         root = os.path.realpath(os.path.dirname(top_abs))
-        for l in lines:
-            m = re.match(r'%(import|include|include_hex)\("([^"]*)"\)', l)
-            if not m:
-                continue
-            t = m.group(2).replace("@T@", base)
-            cand = t if t.startswith("/") else os.path.join(os.path.dirname(top_abs), t)
-            real = os.path.realpath(cand)
-            if os.path.exists(real) and not (real == root or real.startswith(root + os.sep)):
-                return m.group(2)
-        return None
+
+        def follow(src_abs, text, depth):
+            """directives of one source file, then (for import/include of a file inside the root) of the file it names;
+            relative paths are anchored at the directory of the file as it was NAMED (etk joins, then canonicalises)"""
+            if depth > 12:
+                return None
+            for l in text.splitlines():
+                m = re.match(r'%(import|include|include_hex)\("([^"]*)"\)', l)
+                if not m:
+                    continue
+                t = m.group(2).replace("@T@", base)
+                cand = t if t.startswith("/") else os.path.join(os.path.dirname(src_abs), t)
+                real = os.path.realpath(cand)
+                if os.path.exists(real) and not (real == root or real.startswith(root + os.sep)):
+                    return m.group(2)
+                if m.group(1) != "include_hex" and os.path.isfile(real):
+                    try:
+                        sub = open(real, "rb").read().decode()
+                    except Exception:
+                        continue
+                    bad = follow(cand, sub, depth + 1)
+                    if bad:
+                        return bad
+            return None
+        return follow(top_abs, "\n".join(lines), 0)
     finally:
         shutil.rmtree(base, ignore_errors=True)
